@@ -378,6 +378,22 @@ fn ensure_non_detach_delete_safety<S: GraphSnapshot>(
     Ok(())
 }
 
+/// Deletes a relationship together with its stored properties. Properties are kept per
+/// relationship key and outlive the tombstone, so without this a relationship created later
+/// with the same key would inherit the deleted relationship's properties.
+fn tombstone_edge_with_properties<S: GraphSnapshot>(
+    snapshot: &S,
+    txn: &mut dyn WriteableGraph,
+    edge: EdgeKey,
+) -> Result<()> {
+    if let Some(props) = snapshot.edge_properties(edge) {
+        for key in props.keys() {
+            txn.remove_edge_property(edge.src, edge.rel, edge.dst, key)?;
+        }
+    }
+    txn.tombstone_edge(edge.src, edge.rel, edge.dst)
+}
+
 pub(super) fn execute_delete_on_rows<S: GraphSnapshot>(
     snapshot: &S,
     rows: &[Row],
@@ -418,13 +434,13 @@ pub(super) fn execute_delete_on_rows<S: GraphSnapshot>(
         for &node_id in &nodes_to_delete {
             for edge in snapshot.neighbors(node_id, None) {
                 if detached_edges.insert(edge) {
-                    txn.tombstone_edge(edge.src, edge.rel, edge.dst)?;
+                    tombstone_edge_with_properties(snapshot, txn, edge)?;
                     deleted_count += 1;
                 }
             }
             for edge in snapshot.incoming_neighbors(node_id, None) {
                 if detached_edges.insert(edge) {
-                    txn.tombstone_edge(edge.src, edge.rel, edge.dst)?;
+                    tombstone_edge_with_properties(snapshot, txn, edge)?;
                     deleted_count += 1;
                 }
             }
@@ -438,7 +454,7 @@ pub(super) fn execute_delete_on_rows<S: GraphSnapshot>(
     }
 
     for edge in edges_to_delete {
-        txn.tombstone_edge(edge.src, edge.rel, edge.dst)?;
+        tombstone_edge_with_properties(snapshot, txn, edge)?;
         deleted_count += 1;
     }
 
@@ -565,13 +581,13 @@ pub(super) fn execute_delete<S: GraphSnapshot>(
             // Get all edges connected to this node and delete them
             for edge in snapshot.neighbors(node_id, None) {
                 if detached_edges.insert(edge) {
-                    txn.tombstone_edge(edge.src, edge.rel, edge.dst)?;
+                    tombstone_edge_with_properties(snapshot, txn, edge)?;
                     deleted_count += 1;
                 }
             }
             for edge in snapshot.incoming_neighbors(node_id, None) {
                 if detached_edges.insert(edge) {
-                    txn.tombstone_edge(edge.src, edge.rel, edge.dst)?;
+                    tombstone_edge_with_properties(snapshot, txn, edge)?;
                     deleted_count += 1;
                 }
             }
@@ -586,7 +602,7 @@ pub(super) fn execute_delete<S: GraphSnapshot>(
 
     // Delete explicitly targeted edges.
     for edge in edges_to_delete {
-        txn.tombstone_edge(edge.src, edge.rel, edge.dst)?;
+        tombstone_edge_with_properties(snapshot, txn, edge)?;
         deleted_count += 1;
     }
 
